@@ -72,6 +72,7 @@ def main(argv=None):
     findings = runner.load_findings()
     agg = {"evaluations": 0, "faults": {}, "reach": {}, "counts": {}, "events": 0,
            "fps": set(), "samples": [], "errors": [], "timeouts": 0, "planned": 0}
+    batch_fp = {}              # (engine, run index) -> fingerprint observed in the 16-worker batch
     new_violations = []        # (engine, result, violation)
     known_hit = {}             # finding id -> count
     per_engine = {}
@@ -91,6 +92,7 @@ def main(argv=None):
                 agg["errors"].append({"engine": e.name, "i": r.get("i"), "err": r["err"][:1500]})
                 continue
             st["executed"] += 1
+            batch_fp[(e.name, r.get("i"))] = r.get("fp")
             agg["evaluations"] += 1
             agg["events"] += r["n_events"]
             for k in ("faults", "reach", "counts"):
@@ -124,8 +126,9 @@ def main(argv=None):
             two = runner.fingerprints_fresh_interpreter(prop, e, master, tier, idx,     # fresh interpreter,
                                                         hashseed=12345)                 # other PYTHONHASHSEED
             for i in idx:
-                if one.get(str(i)) != two.get(str(i)) or one.get(str(i)) is None:
-                    det["mismatches"].append({"engine": e.name, "i": i, "a": one.get(str(i)), "b": two.get(str(i))})
+                three = batch_fp.get((e.name, i), one.get(str(i)))      # the same run as executed in the parallel batch
+                if one.get(str(i)) != two.get(str(i)) or one.get(str(i)) is None or three != one.get(str(i)):
+                    det["mismatches"].append({"engine": e.name, "i": i, "a": one.get(str(i)), "b": two.get(str(i)), "batch": three})
             det["k"] += len(idx)
 
     # ---- verdicts
@@ -224,8 +227,8 @@ def _write_evidence(prop, plan, engines, tier, master, agg, per_engine, det, kno
         "real_components": sorted(set(sum([engines[p["engine"]].real for p in plan], []))),
         "stub_components": sorted(set(sum([engines[p["engine"]].stub for p in plan], []))),
         "determinism_selftest": {"seeds_checked": det["k"], "mismatches": len(det["mismatches"]),
-                                 "method": "each seed re-run single-worker in a forked child and in a fresh "
-                                           "interpreter under PYTHONHASHSEED=12345; fingerprints diffed"},
+                                 "method": "each seed: fingerprint from the 16-worker batch vs re-run single-worker in a forked "
+                                           "child vs re-run in a fresh interpreter under PYTHONHASHSEED=12345; all three must agree"},
         "known_findings_hit": known_hit,
         "harness_error": herr,
         "cuqi_path": os.path.dirname(cuqi.__file__),
